@@ -434,9 +434,9 @@ class TmplGen:
       return ['list', [self.gen(depth - 1, 'int') for _ in range(r.randint(0, 3))]]
     # any
     if depth <= 0:
-      return self.floatv() if r.chance(0.15) else self.const('any')
+      return self.floatv() if r.chance(0.07) else self.const('any')
     k = r.weighted([(3, 'const'), (3, 'dict'), (2, 'list'), (1, 'A'), (1, 'B'), (1, 'C'),
-                    (5, 'oneof'), (3, 'manyof'), (2, 'floatv')])
+                    (5, 'oneof'), (3, 'manyof'), (1, 'floatv')])
     if k == 'const':
       return self.const('any')
     if k == 'floatv':
@@ -472,6 +472,21 @@ class TmplGen:
     else:
       t = self.choice(max(depth, 1), 'any', r.chance(0.6))      # a placeholder at the root
     return t
+
+
+def int_in_float_slot(t, ty='any'):
+  """An int constant sits where a Float field will convert it to float (directly or as a candidate):
+  the JSON form would no longer describe what pyglove holds."""
+  k = t[0]
+  if k == 'const':
+    return ty == 'float' and t[1][0] == 'int'
+  if k == 'obj':
+    return any(int_in_float_slot(c, fty) for c, (_, fty) in zip(t[3], CLASSES[t[1]][1]))
+  if k in ('dict', 'list'):
+    return any(int_in_float_slot(c) for c in t[-1])
+  if k == 'choice':
+    return any(int_in_float_slot(c, ty if t[2] else 'any') for c in t[4])
+  return False
 
 
 def tmpl_stats(t, acc, depth=0, in_cand=False):
@@ -734,7 +749,7 @@ class C13(Prop):
       hv = to_pg(case['tmpl'])
     except (TypeError, ValueError, KeyError) as e:
       return {'construct': err_name(e)}
-    if of_pg(hv) != case['tmpl']:
+    if of_pg(hv) != case['tmpl'] or int_in_float_slot(case['tmpl']):
       # a typed field converted a constant (int -> float): the JSON no longer describes the value
       return {'construct': 'coerced'}
     obs = {'unchanged': True, 'notes': []}
@@ -748,7 +763,8 @@ class C13(Prop):
     t = pg.template(hv, where)
     spec = t.dna_spec()
     model = {'spec': spec_of_pg(spec), 'size': None if spec.space_size < 0 else spec.space_size,
-             'count': len(t.hyper_primitives), 'dnas': [], 'values': []}
+             'count': len(t.hyper_primitives), 'head_distinct': head_distinct(case['tmpl'], W), 'wf': True,
+             'dnas': [], 'values': []}
     if case['dnas'] == 'all':
       dnas = [d for d in spec.iter_dna()] if not t.is_constant else [pg.DNA(None)]
       dnas += [dna_to_pg(d) for d in case.get('bad_dnas', [])]
@@ -848,7 +864,7 @@ class C13(Prop):
       return None
     a = impl_out['model']
     b = model_out
-    for key in ('spec', 'size', 'count'):
+    for key in ('spec', 'size', 'count', 'head_distinct', 'wf'):
       if a[key] != b[key]:
         return '%s: impl=%s model=%s' % (key, json.dumps(a[key])[:300], json.dumps(b[key])[:300])
     if len(a['dnas']) != len(b['dnas']):
